@@ -177,6 +177,11 @@ func genClientEvent(t *rapid.T, at int64, id int) event {
 	e.NAT = rapid.SampledFrom(natWire).Draw(t, "cnat")
 	e.Door = rapid.SampledFrom([]string{"ipc", "post", "legacy", "amp"}).Draw(t, "cdoor")
 	e.Offer = fmt.Sprintf("{\"type\":\"offer\",\"sdp\":\"client-%d\"}", id)
+	// most clients name no bridge or the default one; some name an unlisted or malformed
+	// fingerprint (they must be turned away without leaving anything behind)
+	if e.Door != "legacy" {
+		e.FP = rapid.SampledFrom([]string{"", "", "", "", defaultBridgeFP, "FFFFFFFFFFFFFFFFFFFFFFFFFFFFFFFFFFFFFFFF", "8838024498816A039FCBBAB14E6F40A0843051FA", "zz", "2B280B23E1107BB62ABFC40DDCC8824814F80A"}).Draw(t, "cfp")
+	}
 	return e
 }
 
